@@ -726,7 +726,7 @@ impl<H: DnsHandle> DnssecDnsHandle<H> {
             Ok(response) => {
                 // Only an empty answer section can stand for the absence of the DS RRset; any
                 // other answer does not answer the DS query and proves nothing.
-                if response.answers.is_empty() {
+                if response.answers.is_empty() && ds_denial_is_at_delegation(&zone, &response) {
                     debug!(
                         %zone,
                         "marking zone as insecure based on secure NSEC/NSEC3 proof or insecure parent zone",
@@ -1070,6 +1070,35 @@ fn verify_rrsig_with_keys(
     } else {
         None
     }
+}
+
+/// Checks that a validated denial of the DS RRset of `zone` comes from a delegation point.
+///
+/// [RFC 6840 section 4.4](https://datatracker.ietf.org/doc/html/rfc6840#section-4.4): to prove
+/// that a delegation is insecure, the NSEC or NSEC3 record that matches the name must have the NS
+/// bit set (there is a delegation) and the SOA bit clear (it comes from the parent zone). Any other
+/// name of a signed zone has no DS RRset either, but nothing at or below it is unsigned.
+fn ds_denial_is_at_delegation(zone: &Name, response: &DnsResponse) -> bool {
+    response
+        .authorities
+        .iter()
+        .filter(|r| r.proof.is_secure())
+        .filter_map(|r| match &r.data {
+            RData::DNSSEC(DNSSECRData::NSEC(nsec)) if r.name == *zone => Some(nsec.type_set()),
+            RData::DNSSEC(DNSSECRData::NSEC3(nsec3)) => {
+                let hash = nsec3
+                    .hash_algorithm()
+                    .hash(nsec3.salt(), zone, nsec3.iterations())
+                    .ok()?;
+                let label = data_encoding::BASE32_DNSSEC.encode(hash.as_ref());
+                let owner_label = r.name.iter().next()?;
+                owner_label
+                    .eq_ignore_ascii_case(label.as_bytes())
+                    .then(|| nsec3.type_set())
+            }
+            _ => None,
+        })
+        .all(|types| types.contains(RecordType::NS) && !types.contains(RecordType::SOA))
 }
 
 /// Find the SOA record, if present, in the response and return its name.
